@@ -29,6 +29,8 @@ pub enum EK {
     ReactivateAfter,
     ReactivatePanic,
     DeferNested,
+    /// defer a function that enters a critical section and keeps the guard beyond its own return
+    DeferKeepGuard,
 }
 
 #[derive(Serialize, Deserialize, Clone, Copy, Debug, PartialEq, Eq)]
@@ -76,6 +78,7 @@ struct EState {
     reactivations: u64,
     reactivations_sole: u64,
     nested_closure_runs: u64,
+    kept_guards: u64,
     panics_caught: u64,
     inline_runs: u64,
     boxed_runs: u64,
@@ -326,6 +329,53 @@ fn refresh(tid: usize) {
     })
 }
 
+thread_local! {
+    /// guards created by a deferred function on this thread and kept beyond its return, with the
+    /// participant's announced epoch at their creation
+    static STASH: std::cell::RefCell<Vec<(Guard, Option<usize>)>> = const { std::cell::RefCell::new(Vec::new()) };
+}
+
+fn stash_len() -> usize {
+    STASH.with(|s| s.borrow().len())
+}
+
+fn take_stash() -> Vec<(Guard, Option<usize>)> {
+    STASH.with(|s| std::mem::take(&mut *s.borrow_mut()))
+}
+
+fn check_kept(v: &[(Guard, Option<usize>)]) {
+    let now = circ::verif::local_state().map(|s| s.0);
+    for (_, at) in v {
+        if *at != now {
+            let d = with(|e| {
+                format!(
+                    "a guard created inside a deferred function and kept beyond its return is live, yet the announced epoch of {} moved from {:?} to {:?} (raw: epoch<<1|pinned); global epoch {}; trace: {}",
+                    tname(), at, now, circ::verif::global_epoch(), tail(e)
+                )
+            });
+            c16_violation("O-pinned/epoch-moved-under-guard-kept-from-deferred-function", &d);
+        }
+    }
+}
+
+/// the main thread (not a worker) executed deferred functions that kept guards: check and drop them
+fn main_drain_stash() {
+    loop {
+        let v = take_stash();
+        if v.is_empty() {
+            break;
+        }
+        if let Some((raw, gc, _)) = circ::verif::local_state() {
+            if raw & 1 != 1 || gc != v.len() {
+                let d = with(|e| format!("main holds {} guards kept by deferred functions but shows pinned={} guard_count={}; trace: {}", v.len(), raw & 1, gc, tail(e)));
+                c16_violation("O-pinned/model-mismatch/main-kept", &d);
+            }
+        }
+        check_kept(&v);
+        drop(v);
+    }
+}
+
 // ---- interpreter ----
 
 struct Eth {
@@ -358,6 +408,20 @@ impl Eth {
                 e.active.remove(&inst);
                 e.ending[tid] = true;
             });
+        }
+    }
+    /// guards that deferred functions executed by this thread during the op have kept
+    fn adopt(&mut self) {
+        let v = take_stash();
+        if v.is_empty() {
+            return;
+        }
+        check_kept(&v);
+        for (g, _) in v {
+            self.guards.push(g);
+        }
+        if self.inst.is_none() {
+            self.begin_cs();
         }
     }
     fn check_model(&self, what: &str) {
@@ -506,6 +570,22 @@ impl Eth {
                     }
                 }
             }
+            EK::DeferKeepGuard => {
+                if !self.guards.is_empty() {
+                    what = "defer-keep-guard";
+                    let by = self.tid;
+                    let id = new_clo(by);
+                    unsafe {
+                        circ::verif::defer(&self.guards[0], move || {
+                            on_run(id, true, true);
+                            let g = cs();
+                            let at = circ::verif::local_state().map(|s| s.0);
+                            STASH.with(|s| s.borrow_mut().push((g, at)));
+                            with(|e| e.kept_guards += 1);
+                        })
+                    }
+                }
+            }
             EK::Reactivate => {
                 if !self.guards.is_empty() {
                     what = "reactivate";
@@ -541,7 +621,9 @@ impl Eth {
                             // inside: unpinned iff it was the sole guard
                             if let Some((raw, gc, _)) = circ::verif::local_state() {
                                 let pinned = raw & 1 == 1;
-                                if pinned != !sole || gc != nguards - 1 {
+                                // (deferred functions run by the unpin may have kept guards)
+                                let kept = stash_len();
+                                if pinned != (!sole || kept > 0) || gc != nguards - 1 + kept {
                                     c16_violation("O-pinned/inside-reactivate_after", &format!("inside reactivate_after on {} guard of t{}: pinned={} guard_count={}", if sole { "the sole" } else { "a non-sole" }, tid, pinned, gc));
                                 }
                             }
@@ -570,6 +652,7 @@ impl Eth {
                 }
             }
         }
+        self.adopt();
         self.check_model(what);
         refresh(self.tid);
         sched::op_done();
@@ -588,7 +671,7 @@ impl Eth {
             if before != after {
                 c16_violation(&format!("O-pinned/{}-nonsole-moved", what), &format!("{} on a non-sole guard changed the announced epoch from {:?} to {:?}", what, before, after));
             }
-        } else if undisturbed {
+        } else if undisturbed && stash_len() == 0 {
             let g = circ::verif::default_collector().verif_epoch();
             if let Some(a) = after {
                 if a & 1 != 1 || a >> 1 != g >> 1 {
@@ -628,6 +711,7 @@ pub fn run_case(case: &EbrCase) -> Report {
             reactivations: 0,
             reactivations_sole: 0,
             nested_closure_runs: 0,
+            kept_guards: 0,
             panics_caught: 0,
             inline_runs: 0,
             boxed_runs: 0,
@@ -667,11 +751,18 @@ pub fn run_case(case: &EbrCase) -> Report {
                     // thread exit: remaining guards go away (innermost first), garbage stays in
                     // the local bag for `finalize` to hand over
                     sched::op_begin();
-                    while let Some(g) = th.guards.pop() {
-                        if th.guards.is_empty() {
-                            th.end_cs();
+                    loop {
+                        while let Some(g) = th.guards.pop() {
+                            if th.guards.is_empty() && stash_len() == 0 {
+                                th.end_cs();
+                            }
+                            drop(g);
                         }
-                        drop(g);
+                        if stash_len() == 0 {
+                            break;
+                        }
+                        th.adopt();
+                        th.check_model("exit");
                     }
                     with(|e| {
                         e.exited[t] = true;
@@ -716,6 +807,7 @@ pub fn run_case(case: &EbrCase) -> Report {
             });
         }
         round_main();
+        main_drain_stash();
         rounds += 1;
     }
     let mut rep = Report::default();
@@ -731,6 +823,7 @@ pub fn run_case(case: &EbrCase) -> Report {
         rep.count("reactivations", e.reactivations);
         rep.count("reactivations_on_sole_guard", e.reactivations_sole);
         rep.count("nested_closure_runs", e.nested_closure_runs);
+        rep.count("guards_kept_beyond_deferred_function", e.kept_guards);
         rep.count("panics_caught", e.panics_caught);
         rep.count("inline_closure_runs", e.inline_runs);
         rep.count("boxed_closure_runs", e.boxed_runs);
@@ -770,6 +863,9 @@ pub fn exec(prop: &str, v: &Value) -> Report {
     if get(&rep, "panics_caught") > 0 {
         rep.label("panic-in-reactivate_after");
     }
+    if get(&rep, "guards_kept_beyond_deferred_function") > 0 {
+        rep.label("guard-kept-beyond-deferred-function");
+    }
     if get(&rep, "nested_closure_runs") > 0 {
         rep.label("api-use-inside-deferred-function");
     }
@@ -801,6 +897,7 @@ fn run_private(case: &EbrCase) -> Report {
             reactivations: 0,
             reactivations_sole: 0,
             nested_closure_runs: 0,
+            kept_guards: 0,
             panics_caught: 0,
             inline_runs: 0,
             boxed_runs: 0,
@@ -856,7 +953,7 @@ fn run_private(case: &EbrCase) -> Report {
                     g.flush();
                 }
             }
-            EK::Defer | EK::Burst | EK::DeferNested => {
+            EK::Defer | EK::Burst | EK::DeferNested | EK::DeferKeepGuard => {
                 if let Some(g) = guards[h].last() {
                     let k = if op.k == EK::Burst { 20 + (op.a as usize % 4) * 25 } else { 1 };
                     for j in 0..k {
@@ -1011,6 +1108,7 @@ pub const EW_GUARDS: EW = &[
     (6, EK::ReactivateAfter),
     (3, EK::ReactivatePanic),
     (4, EK::DeferNested),
+    (3, EK::DeferKeepGuard),
 ];
 pub const EW_ADVANCE: EW = &[
     (1, EK::Nop),
